@@ -218,9 +218,15 @@ func (c *ColumnImage) UnmarshalJSON(data []byte) error {
 		value       interface{}
 		actualValue interface{}
 	)
-	keyType = tmpImage["keyType"].(string)
-	columnType = int16(int64(tmpImage["type"].(float64)))
-	columnName = tmpImage["name"].(string)
+	var okKey, okType, okName bool
+	var typeNumber float64
+	keyType, okKey = tmpImage["keyType"].(string)
+	typeNumber, okType = tmpImage["type"].(float64)
+	columnName, okName = tmpImage["name"].(string)
+	if !okKey || !okType || !okName {
+		return fmt.Errorf("malformed column image %s", string(data))
+	}
+	columnType = int16(int64(typeNumber))
 	value = tmpImage["value"]
 
 	if value != nil {
@@ -240,33 +246,38 @@ func (c *ColumnImage) UnmarshalJSON(data []byte) error {
 			default:
 				return fmt.Errorf("column %s: a number or its text is expected for type %d, got %T", columnName, columnType, value)
 			}
-		case JDBCTypeTinyInt: // 1 Bytes
-			actualValue = int8(value.(float64))
-		case JDBCTypeSmallInt: // 2 Bytes
-			actualValue = int16(value.(float64))
-		case JDBCTypeInteger: // 4 Bytes
-			actualValue = int32(value.(float64))
-		case JDBCTypeBigInt: // 8Bytes
-			actualValue = int64(value.(float64))
-		case JDBCTypeTimestamp: // 4 Bytes
-			actualValue, err = time.Parse(time.RFC3339Nano, value.(string))
-			if err != nil {
-				return err
+		case JDBCTypeTinyInt, JDBCTypeSmallInt, JDBCTypeInteger, JDBCTypeBigInt:
+			f, ok := value.(float64)
+			if !ok {
+				return fmt.Errorf("column %s: a number is expected for type %d, got %T", columnName, columnType, value)
 			}
-		case JDBCTypeDate: // 3Bytes
-			actualValue, err = time.Parse(time.RFC3339Nano, value.(string))
-			if err != nil {
-				return err
+			switch JDBCType(columnType) {
+			case JDBCTypeTinyInt: // 1 Bytes
+				actualValue = int8(f)
+			case JDBCTypeSmallInt: // 2 Bytes
+				actualValue = int16(f)
+			case JDBCTypeInteger: // 4 Bytes
+				actualValue = int32(f)
+			default: // 8Bytes
+				actualValue = int64(f)
 			}
-		case JDBCTypeTime: // 3Bytes
-			actualValue, err = time.Parse(time.RFC3339Nano, value.(string))
+		case JDBCTypeTimestamp, JDBCTypeDate, JDBCTypeTime:
+			str, ok := value.(string)
+			if !ok {
+				return fmt.Errorf("column %s: a time in text form is expected for type %d, got %T", columnName, columnType, value)
+			}
+			actualValue, err = time.Parse(time.RFC3339Nano, str)
 			if err != nil {
 				return err
 			}
 		case JDBCTypeChar, JDBCTypeVarchar, JDBCTypeLongVarchar:
+			str, ok := value.(string)
+			if !ok {
+				return fmt.Errorf("column %s: text is expected for type %d, got %T", columnName, columnType, value)
+			}
 			var val []byte
-			if val, err = base64.StdEncoding.DecodeString(value.(string)); err != nil {
-				val = []byte(value.(string))
+			if val, err = base64.StdEncoding.DecodeString(str); err != nil {
+				val = []byte(str)
 			}
 			actualValue = string(val)
 		case JDBCTypeBinary, JDBCTypeVarBinary, JDBCTypeLongVarBinary, JDBCTypeBit:
